@@ -9,6 +9,8 @@ Mixture model: every rule of `models/mixture.py` (`compute_ind_param_mean_from_s
 `compute_ind_param_std_from_suff_stats_mixture(_burn_in)`, `compute_probs_from_state`) is compared with `MixRule.apply`
 (request `mixstep`): exact rationals of the float32/float64 inputs, exponentials of the softmax computed by numpy; envelopes
 derived from the dtypes actually used and the number of operations.
+Widened generators (`gen_wide_cases`) and observation points (`check_fresh_stats`, `check_iterations`, `threshold_records`): see
+`chk.rule` in `run`.
 """
 from __future__ import annotations
 
@@ -103,13 +105,22 @@ def err_class(e):
 
 # ------------------------------------------------------------------ data generation
 def gen_table(env, case):
-    """Deterministic tiny cohort from `case` (a plain dict)."""
+    """Deterministic tiny cohort from `case` (a plain dict).
+
+    Optional keys (absent = the historical behaviour, same random stream): `nv_min` / `nv_max` (visits per subject), `time_unit` and
+    `t_shift` (reported age = (age in years - t_shift) * time_unit: months, days, years since baseline), `y_scale` (unit of a linear
+    model's features), `nb_events` (competing risks of the joint layout), `miss_ft` (one missing rate per feature: unbalanced
+    counts), `blank` (list among "feature_one" = one feature wholly missing for one subject, "visit" = one visit wholly missing,
+    "individual" = every value of one subject missing; the last two need `keep_nan` to reach the Dataset)."""
     r = random.Random(case["data_seed"])
     n, nft, miss = case["n_ind"], case["n_ft"], case["miss"]
     joint = case["model"] == "joint"
+    unit, shift, ys = case.get("time_unit", 1.0), case.get("t_shift", 0.0), case.get("y_scale", 1.0)
+    n_ev = case.get("nb_events", 1)
+    rep = (lambda t: round(t, 3)) if (unit == 1.0 and shift == 0.0) else (lambda t: round((t - shift) * unit, 3))
     rows = []
     for i in range(n):
-        nv = r.randint(2, 5)
+        nv = r.randint(case.get("nv_min", 2), case.get("nv_max", 5))
         t0 = 60 + 15 * r.random()
         speed = math.exp(r.gauss(0, 0.4))
         tau = 70 + r.gauss(0, 5)
@@ -117,25 +128,28 @@ def gen_table(env, case):
         for _ in range(nv):
             t += 0.5 + 1.5 * r.random()
             times.append(round(t, 3))
-        ev_t, ev_b = round(times[-1] + 0.5 + 4 * r.random(), 3), (i % 2)
+        ev_t, ev_b = round(times[-1] + 0.5 + 4 * r.random(), 3), (i % (n_ev + 1))
         for t in times:
             vals = []
             for k in range(nft):
                 if case["model"] == "linear":
                     v = 0.3 + 0.02 * speed * (t - tau - 2 * k) + r.gauss(0, 0.03)
+                    if ys != 1.0:
+                        v = float(f"{v * ys:.6g}")
                 else:
                     v = 1 / (1 + math.exp(-speed * (t - tau - 3 * k) / 6)) + r.gauss(0, 0.05)
                     v = min(max(v, 0.01), 0.99)
-                vals.append(round(v, 5))
-            rows.append([f"s{i:02d}", t] + ([ev_t, ev_b] if joint else []) + vals)
+                vals.append(round(v, 5) if ys == 1.0 else v)
+            rows.append([f"s{i:02d}", rep(t)] + ([rep(ev_t), ev_b] if joint else []) + vals)
     fts = [f"Y{k}" for k in range(nft)]
     cols = ["ID", "TIME"] + (["EVENT_TIME", "EVENT_BOOL"] if joint else []) + fts
     df = env.pd.DataFrame(rows, columns=cols)
     # random missing cells; every visit keeps one observed feature; every feature keeps >= 2 subjects with >= 2 values
     nan = float("nan")
+    miss_ft = case.get("miss_ft") or [miss] * nft
     for idx in range(len(df)):
-        for f in fts:
-            if nft > 1 and r.random() < miss:
+        for k, f in enumerate(fts):
+            if nft > 1 and r.random() < miss_ft[k]:
                 others = [g for g in fts if g != f and not math.isnan(df.at[idx, g])]
                 if others:
                     old = df.at[idx, f]
@@ -143,23 +157,71 @@ def gen_table(env, case):
                     ok = (df.groupby("ID")[f].count() >= 2).sum() >= 2
                     if not ok:
                         df.at[idx, f] = old
+    if case.get("blank"):
+        r2 = random.Random(case["data_seed"] * 7 + 3)
+        ids = sorted(df["ID"].unique())
+
+        def keeps(frame):
+            return all((frame.groupby("ID")[f].count() >= 2).sum() >= 2 for f in fts)
+        for what in case["blank"]:
+            trial = df.copy()
+            sid = r2.choice(ids)
+            rows_i = list(trial.index[trial["ID"] == sid])
+            if what == "feature_one" and nft > 1:
+                trial.loc[rows_i, r2.choice(fts)] = nan
+                if trial.loc[rows_i, fts].notna().any(axis=1).all() or case.get("keep_nan"):
+                    df = trial if keeps(trial) else df
+            elif what == "visit" and len(rows_i) >= 3:
+                trial.loc[r2.choice(rows_i), fts] = nan
+                df = trial if keeps(trial) else df
+            elif what == "individual" and len(ids) >= 4:
+                trial.loc[rows_i, fts] = nan
+                df = trial if keeps(trial) else df
     return df
+
+
+def model_kwargs(env, case):
+    """Keyword arguments of `model_factory` for this case.  `obs` selects HOW the noise structure is requested (every spelling the
+    constructors accept): "str" (historical), "tuple", "list", "dict", "instance", "default" (no `obs_models`), "nodim" (neither
+    `obs_models` nor the dimension), "features" (feature names instead of the dimension)."""
+    nft = case["n_ft"]
+    obs = case.get("obs", "str")
+    kw = dict(source_dimension=case["src"])
+    if obs == "features":
+        kw["features"] = [f"Y{k}" for k in range(nft)]
+    elif obs != "nodim":
+        kw["dimension"] = nft
+    if case["noise"] in ("scalar", "diagonal") and obs not in ("default", "nodim"):
+        name = "gaussian-" + case["noise"]
+        if obs == "tuple":
+            kw["obs_models"] = (name,)
+        elif obs == "list":
+            kw["obs_models"] = [name]
+        elif obs == "dict":
+            kw["obs_models"] = {"y": name}
+        elif obs == "instance":
+            from leaspy.models.obs_models import FullGaussianObservationModel as G
+            kw["obs_models"] = G.with_noise_std_as_model_parameter(1 if case["noise"] == "scalar" else nft)
+        else:
+            kw["obs_models"] = name
+    if case["model"] == "mixture_logistic":
+        kw["n_clusters"] = case.get("n_clusters", 2)
+    if case.get("nb_events", 1) != 1:
+        kw["nb_events"] = case["nb_events"]
+    return kw
+
+
+def make_data(env, case, df):
+    kwd = dict(drop_full_nan=False) if case.get("keep_nan") else {}
+    if case["model"] == "joint":
+        return env.Data.from_dataframe(df, "joint", **kwd)
+    return env.Data.from_dataframe(df, **kwd)
 
 
 def build(env, case):
     df = gen_table(env, case)
-    if case["model"] == "joint":
-        data = env.Data.from_dataframe(df, "joint")
-    else:
-        data = env.Data.from_dataframe(df)
-    dataset = env.Dataset(data)
-    name = case["model"]
-    kw = dict(dimension=case["n_ft"], source_dimension=case["src"])
-    if case["noise"] in ("scalar", "diagonal"):
-        kw["obs_models"] = "gaussian-" + case["noise"]
-    if name == "mixture_logistic":
-        kw["n_clusters"] = case.get("n_clusters", 2)
-    model = env.model_factory(name, **kw)
+    dataset = env.Dataset(make_data(env, case, df))
+    model = env.model_factory(case["model"], **model_kwargs(env, case))
     return df, dataset, model
 
 
@@ -178,9 +240,34 @@ def clone_stats(env, ss):
     return out
 
 
-def run_fit(env, case, dataset, model):
-    """Real fit; every `update_parameters` call is recorded: (iteration, pre-step state clone, statistics, flag, new values | error)."""
-    rec = []
+def algo_kwargs(case):
+    """Settings of the fit.  `settings` (optional): `frac` = memory-less phase given as a fraction (the documented count is
+    int(frac * n_iter); generated so that it is `n_burn`), `power`, `annealing` (dict), `sampler_pop`, `sampler_ind_params`,
+    `sampler_pop_params`, `random_order`."""
+    st = case.get("settings") or {}
+    kw = dict(n_iter=case["n_iter"], seed=case["seed"], progress_bar=False)
+    if st.get("frac") is not None:
+        kw["n_burn_in_iter_frac"] = st["frac"]
+    else:
+        kw["n_burn_in_iter"] = case["n_burn"]
+    if st.get("power") is not None:
+        kw["burn_in_step_power"] = st["power"]
+    if st.get("annealing"):
+        kw["annealing"] = dict(st["annealing"])
+    for k_case, k_algo in (("sampler_pop", "sampler_pop"), ("sampler_ind_params", "sampler_ind_params"),
+                           ("sampler_pop_params", "sampler_pop_params"), ("random_order", "random_order_variables")):
+        if st.get(k_case) is not None:
+            kw[k_algo] = st[k_case]
+    return kw
+
+
+def run_fit(env, case, dataset, model, df=None, algo_box=None):
+    """Real fit; every `update_parameters` call is recorded: (iteration, pre-step state clone, statistics, flag, new values | error).
+    Returns (outcome, records, per-iteration observations).  `entry` (optional key of the case) selects the public entry point:
+    "kwargs" (historical: `model.fit(dataset, "mcmc_saem", **settings)`), "settings" (an `AlgorithmSettings` object), "file"
+    (settings saved to / loaded from a JSON file), "run" (`algorithm_factory(settings).run(model, dataset)`; `algo_box` keeps the
+    algorithm object so that a second fit re-uses it); `container`: "dataset" (historical) | "data" | "dataframe"."""
+    rec, iters = [], []
     orig_up = model.update_parameters
 
     def up(state, ss, *, burn_in):
@@ -195,20 +282,67 @@ def run_fit(env, case, dataset, model):
         rec.append(dict(k=len(rec) + 1, pre=pre, S=S, burn=bool(burn_in), new=new, err=None))
         return r
 
+    # second, independent observation point: the parameters held by the state when the whole iteration is over (whatever the
+    # algorithm did around / instead of `update_parameters`), the iteration counter and the memory-less length it runs with
+    from leaspy.algo.fit.mcmc_saem import TensorMcmcSaemAlgorithm as A
+    orig_it = A.__dict__.get("_iteration")
+
+    def it(self, mdl, state):
+        n0 = len(rec)
+        orig_it(self, mdl, state)
+        try:
+            post = {p: state[p].detach().clone() for p in state.dag.sorted_variables_by_type[env.MP]}
+            iters.append(dict(k=int(self.current_iteration), calls=len(rec) - n0, post=post, nb=self.algo_parameters.get("n_burn_in_iter")))
+        except Exception:  # noqa  — the monitor must not disturb the fit
+            pass
+
+    entry, container = case.get("entry", "kwargs"), case.get("container", "dataset")
+    data = dataset
+    if container == "data" and df is not None:
+        data = make_data(env, case, df)
+    elif container == "dataframe" and df is not None and case["model"] != "joint" and not case.get("keep_nan"):
+        data = df.copy()
     model.update_parameters = up
-    out = "ok"
+    if orig_it is not None:
+        A._iteration = it
+    out, final = "ok", {}
     try:
         with core.quiet():
-            model.fit(dataset, "mcmc_saem", n_iter=case["n_iter"], n_burn_in_iter=case["n_burn"], seed=case["seed"],
-                      progress_bar=False)
+            kw = algo_kwargs(case)
+            if entry == "kwargs":
+                model.fit(data, "mcmc_saem", **kw)
+            else:
+                from leaspy.algo import AlgorithmSettings, algorithm_factory
+                settings = AlgorithmSettings("mcmc_saem", **kw)
+                if entry == "settings":
+                    model.fit(data, algorithm_settings=settings)
+                elif entry == "file":
+                    import os
+                    import tempfile
+                    with tempfile.TemporaryDirectory() as d:
+                        settings.save(os.path.join(d, "fit_settings.json"))
+                        model.fit(data, algorithm_settings_path=os.path.join(d, "fit_settings.json"))
+                else:
+                    if algo_box is not None and algo_box.get("algo") is not None:
+                        algo = algo_box["algo"]
+                    else:
+                        algo = algorithm_factory(settings)
+                        if algo_box is not None:
+                            algo_box["algo"] = algo
+                    if not model.is_initialized:
+                        model.initialize(dataset)
+                    algo.run(model, dataset)
+            final = {p: v.detach().clone() for p, v in model.parameters.items()}
     except Exception as e:  # noqa
         out = err_class(e)
     finally:
+        if orig_it is not None:
+            A._iteration = orig_it
         try:
             del model.update_parameters
         except Exception:
             pass
-    return out, rec
+    return out, rec, iters, final
 
 
 # ------------------------------------------------------------------ the property predicate (numpy, float64)
@@ -235,6 +369,14 @@ def rule_kinds(env, state):
 
 def f64(env, t):
     return tens(env, t).detach().double().numpy()
+
+
+def noise_is_scalar(case, pre):
+    """One noise level for all features?  Named by the case, or - when the constructor call leaves it to the default
+    (`noise` = "auto") - read off the shape of the parameter: one number for several features is the common noise."""
+    if case["noise"] == "auto":
+        return int(pre["noise_std"].numel()) == 1
+    return tuple(pre["noise_std"].shape) in ((), (1,)) and case["noise"] == "scalar"
 
 
 def env_tol(*magnitudes):
@@ -354,7 +496,7 @@ def expected_values(env, case, dataset, r, fresh):
         elif kind == "noise":
             y = dataset.values.double().numpy()
             w = dataset.mask.double().numpy()
-            scalar = tuple(pre["noise_std"].shape) in ((), (1,)) and case["noise"] == "scalar"
+            scalar = noise_is_scalar(case, pre)
             axes = None if scalar else (0, 1)
             nobs = w.sum(axis=axes)
             if fresh:
@@ -380,6 +522,44 @@ def expected_values(env, case, dataset, r, fresh):
     return out
 
 
+def check_fresh_stats(env, chk, cj, dataset, r):
+    """Memory-less step (and first step with memory): the statistics in force are the documented functions of the state the step
+    starts from - the latent values themselves, their squares, y * model and model^2 at the observed entries."""
+    np = env.np
+    pre, S = r["pre"], r["S"]
+    lat = set(pre.dag.sorted_variables_by_type[env.PopLV]) | set(pre.dag.sorted_variables_by_type[env.IndLV])
+    obs = dataset.mask.numpy() > 0
+    for k, v in S.items():
+        try:
+            got = f64(env, v)
+            sel = None
+            if k in lat:
+                want, rel = f64(env, pre[k]), 0.0
+            elif k.endswith("_sqr") and k[:-4] in lat:
+                want, rel = f64(env, pre[k[:-4]]) ** 2, 4 * EPS32
+            elif k == "y_x_model":
+                want, rel, sel = dataset.values.double().numpy() * f64(env, pre["model"]), 4 * EPS32, obs
+            elif k == "model_x_model":
+                want, rel, sel = f64(env, pre["model"]) ** 2, 4 * EPS32, obs
+            else:
+                continue
+            if got.shape != want.shape:
+                chk.impl_failure(cj, f"statistic '{k}' of a memory-less step has shape {got.shape}, the variable it collects {want.shape}")
+                continue
+            with np.errstate(all="ignore"):
+                # (+ the float32 underflow threshold: a product below 1.2e-38 is denormal or 0 in the implementation)
+                ok = (np.abs(got - want) <= rel * np.abs(want) + (2e-38 if rel else 0.0)) | (np.isnan(got) & np.isnan(want)) | (got == want)
+            if sel is not None:
+                ok = ok | ~sel
+            if not bool(ok.all()):
+                i = int(np.argmax(~ok.ravel()))
+                chk.impl_failure(cj, f"statistic '{k}' in force at a memory-less step is {got.ravel()[i]!r} at position {i}, the state the "
+                                     f"step starts from gives {want.ravel()[i]!r}")
+        except Exception as e:  # noqa
+            chk.tag("fresh_stats_skipped", f"{k}:{type(e).__name__}")
+    chk.tag("fresh_stats", "checked")
+
+
 def check_step(env, chk, case, dataset, r, fresh, label):
     """Property predicate on one recorded maximisation step. Returns the `expected` dict for the model comparison."""
     np, torch = env.np, env.torch
@@ -396,6 +576,18 @@ def check_step(env, chk, case, dataset, r, fresh, label):
         chk.tag("step_outcome", r["err"])
         return exp
     chk.tag("step_outcome", "ok")
+    # the documented refusal: a prior / noise variance below 1e-5 is a convergence error, never a parameter value (the rules of
+    # the memory-less phase and of the mixture have no such guard).  A band of 0.1 % around the bound is left undecided.
+    for p, (kind, v, tol) in exp.items():
+        if kind in ("istd", "noise") and not (kind == "istd" and r["burn"]):
+            with np.errstate(all="ignore"):
+                low = np.atleast_1d(v) + np.atleast_1d(tol) < 1e-5 * (1 - 1e-3)
+            if bool(low.any()):
+                chk.impl_failure(cj, f"{p}: the step stored {np.atleast_1d(new[p].detach().double().numpy()).ravel()[:4].tolist()} although the "
+                                     f"variance {np.atleast_1d(v).ravel()[:4].tolist()} is below the documented lower bound 1e-5 "
+                                     f"(a convergence error is announced for that case)")
+    if fresh:
+        check_fresh_stats(env, chk, cj, dataset, r)
     for p, (kind, v, tol) in exp.items():
         got = new[p].detach().double().numpy()
         if kind in ("istd", "noise", "mstd"):
@@ -428,7 +620,7 @@ def check_step(env, chk, case, dataset, r, fresh, label):
                                          f"cluster is {float(np.sqrt(max(doc.ravel()[i], 0.0))):.6g}", finding="F26")
         if bool(bad.any()):
             fid = None
-            if kind == "noise" and case["noise"] == "scalar" and within_visit_missing:
+            if kind == "noise" and case["noise"] == "scalar" and within_visit_missing and not r.get("synthetic"):
                 fid = "F3"
             what = {"pop": "prior mean of a population variable is not the (averaged) latent value",
                     "imean": "prior mean of an individual variable is not the mean of the (averaged) latent values",
@@ -502,6 +694,8 @@ def lean_line(env, case, dataset, r):
         stats.append(f"{name}:" + ";".join(frs(row) for row in rows))
 
     for p, (kind, var) in kinds.items():
+        if int(pre[p].numel()) == 0:
+            continue     # e.g. `deltas_mean` of a univariate shared-speed model: no entry, nothing to compare
         if kind == "pop":
             add_stat(var)
             rules.append(f"{p}:pop:{var}:0")
@@ -525,7 +719,7 @@ def lean_line(env, case, dataset, r):
             old.append(f"{var}_mean:" + frs(f64(env, pre[var + "_mean"]).reshape(-1)))
             rules.append(f"{p}:istd:{var}:{fmt_rat(TOL_VAR)}")
         elif kind == "noise":
-            scalar = case["noise"] == "scalar"
+            scalar = noise_is_scalar(case, pre) if case["noise"] == "auto" else case["noise"] == "scalar"
             rules.append(f"{p}:{'nscalar' if scalar else 'ndiag'}:-:{fmt_rat(TOL_VAR)}")
         else:
             continue
@@ -582,6 +776,11 @@ def compare_model(env, chk, items):
             got = r["new"][p].detach().double().numpy().reshape(-1)
             if kind in ("istd", "noise", "mstd"):
                 got = got ** 2
+            if kind == "istd" and r["burn"] and bool(np.isnan(np.atleast_1d(v)).all()):
+                # one individual: the Bessel-corrected dispersion is 0/0 (torch: nan, required by the predicate above); the model's
+                # theorems are stated for two individuals or more (`indVarBurnIn_bessel`), its total division answers 0
+                chk.tag("outside_model_domain", "memory-less dispersion of a single individual")
+                continue
             if m in ("err:nan", "err:inf"):
                 # the model says torch stores a non-finite number (0/0 for an emptied cluster, sqrt of a negative variance)
                 if bool(np.isfinite(got).all()):
@@ -635,105 +834,263 @@ def compare_model(env, chk, items):
 
 
 # ------------------------------------------------------------------ one case
+def _reinvoke(env, model, pre, S, burn, label, **extra):
+    """The real `update_parameters` on a clone of `pre` -> a record."""
+    work = pre.clone(disable_auto_fork=True)
+    try:
+        with core.quiet():
+            type(model).update_parameters(work, S, burn_in=burn)
+        new = {p: work[p].detach().clone() for p in work.dag.sorted_variables_by_type[env.MP]}
+        return dict(k=label, pre=pre, S=S, burn=burn, new=new, err=None, **extra)
+    except Exception as e:  # noqa
+        return dict(k=label, pre=pre, S=S, burn=burn, new=None, err=err_class(e), **extra)
+
+
 def perturbed_records(env, case, model, rec):
     """Re-invoke the real `update_parameters` on clones of a recorded pre-step state whose prior means were shifted,
-    in both phases: the rules must read exactly these pre-step values."""
+    in both phases: the rules must read exactly these pre-step values.  Two historical shifts (+3 years / +0.25) and two of a
+    random sign and size (up to several prior standard deviations and beyond)."""
     out = []
     if not rec:
         return out
     base = rec[-1]
     if base["new"] is None:
         return out
-    torch = env.torch
-    for burn in (False, True):
+    r = random.Random(case["data_seed"] * 13 + 5)
+    plans = [(False, None), (True, None), (False, r), (True, r)]
+    for j, (burn, rnd) in enumerate(plans):
         pre = base["pre"].clone(disable_auto_fork=True)
         for p, (kind, var) in rule_kinds(env, pre).items():
             if kind == "istd" and (var + "_mean") in pre.dag.sorted_variables_by_type[env.MP]:
                 mu = pre[var + "_mean"]
-                delta = 3.0 if var == "tau" else 0.25
+                if rnd is None:
+                    delta = 3.0 if var == "tau" else 0.25
+                else:
+                    delta = rnd.choice([-1, 1]) * (10 ** rnd.uniform(-2, 1.8) if var == "tau" else 10 ** rnd.uniform(-3, 0.5))
                 pre[var + "_mean"] = (mu + delta).clone()
-        work = pre.clone(disable_auto_fork=True)
-        try:
-            with core.quiet():
-                type(model).update_parameters(work, base["S"], burn_in=burn)
-            new = {p: work[p].detach().clone() for p in work.dag.sorted_variables_by_type[env.MP]}
-            out.append(dict(k=f"{base['k']}+shift{'B' if burn else ''}", pre=pre, S=base["S"], burn=burn, new=new, err=None))
-        except Exception as e:  # noqa
-            out.append(dict(k=f"{base['k']}+shift{'B' if burn else ''}", pre=pre, S=base["S"], burn=burn, new=None, err=err_class(e)))
+        out.append(_reinvoke(env, model, pre, base["S"], burn, f"{base['k']}+shift{'B' if burn else ''}{'' if rnd is None else 'r'}"))
     return out
 
 
 def mixture_emptied_records(env, case, model, rec):
-    """Mixture only: the recorded pre-step state with the last cluster moved far away from every individual (its mean
+    """Mixture only: the recorded pre-step state with one cluster moved far away from every individual (its mean
     reference time shifted by 400 years), so that its responsibilities vanish: the probabilities must still be the mean
-    responsibilities and sum to one."""
+    responsibilities and sum to one.  Historical: the last cluster.  Added: a cluster chosen at random moved backwards, and ALL
+    clusters moved away (every log-density below the documented floor of -100: uniform responsibilities)."""
     out = []
     if not rec or rec[-1]["new"] is None:
         return out
     base = rec[-1]
-    for burn in (False, True):
-        pre = base["pre"].clone(disable_auto_fork=True)
-        mu = pre["tau_mean"].clone()
-        mu[-1] = mu[-1] + 400.0
-        pre["tau_mean"] = mu
-        k = f"{base['k']}+emptied-cluster{'B' if burn else ''}"
-        try:
-            work = pre.clone(disable_auto_fork=True)
-            with core.quiet():
-                type(model).update_parameters(work, base["S"], burn_in=burn)
-            new = {p: work[p].detach().clone() for p in work.dag.sorted_variables_by_type[env.MP]}
-            out.append(dict(k=k, pre=pre, S=base["S"], burn=burn, new=new, err=None))
-        except Exception as e:  # noqa
-            out.append(dict(k=k, pre=pre, S=base["S"], burn=burn, new=None, err=err_class(e)))
+    r = random.Random(case["data_seed"] * 17 + 1)
+    K = int(base["pre"]["tau_mean"].numel())
+    plans = [("emptied-cluster", [K - 1], 400.0), (f"emptied-cluster{r.randrange(K)}-", None, -400.0), ("all-clusters-far", list(range(K)), 400.0)]
+    for name, which, delta in plans:
+        if which is None:
+            which = [int(name[len("emptied-cluster"):-1])]
+        for burn in (False, True):
+            pre = base["pre"].clone(disable_auto_fork=True)
+            mu = pre["tau_mean"].clone()
+            for c in which:
+                mu[c] = mu[c] + delta
+            pre["tau_mean"] = mu
+            out.append(_reinvoke(env, model, pre, base["S"], burn, f"{base['k']}+{name}{'B' if burn else ''}"))
     return out
 
 
+def threshold_records(env, case, dataset, model, rec, n_targets=None):
+    """The refusal rule driven directly: statistics built so that one variance lies at a chosen distance from the documented
+    lower bound 1e-5 (half, 0.1 % below, one float32 step either side, 0.1 % above, twice).  Prior std of tau / xi: all latent
+    values and the pre-step mean 0, squares = target.  Noise: observations 0, model^2 = target at every observed entry (diagonal
+    noise: only ONE feature at the target, the others at 0.01).  Returns [(record, dataset the expectations are computed from)]."""
+    import copy
+    out = []
+    if not rec or rec[-1]["new"] is None or case["model"] == "mixture_logistic":
+        return out
+    torch, np = env.torch, env.np
+    base = rec[-1]
+    t32 = np.float32(1e-5)
+    targets = [("half", 0.5e-5), ("below", 0.999e-5), ("ulp-", float(np.nextafter(t32, np.float32(0)))), ("at", float(t32)),
+               ("ulp+", float(np.nextafter(t32, np.float32(1)))), ("above", 1.001e-5), ("twice", 2e-5)]
+    kinds = rule_kinds(env, base["pre"])
+    mps = base["pre"].dag.sorted_variables_by_type[env.MP]
+    if n_targets is not None:
+        targets = random.Random(case["data_seed"] * 19 + 7).sample(targets, n_targets)
+    for name, target in targets:
+        for p, (kind, var) in kinds.items():
+            if kind == "istd":
+                pre = base["pre"].clone(disable_auto_fork=True)
+                S = dict(base["S"])
+                if (var + "_mean") in mps:
+                    pre[var + "_mean"] = torch.zeros_like(pre[var + "_mean"])
+                elif float(tens(env, pre[var + "_mean"]).abs().max()) != 0.0:
+                    continue
+                S[var] = torch.zeros_like(tens(env, S[var]))
+                S[var + "_sqr"] = torch.full_like(tens(env, S[var + "_sqr"]), target)
+                out.append((_reinvoke(env, model, pre, S, False, f"{base['k']}+threshold:{p}:{name}", synthetic=True), dataset))
+            elif kind == "noise":
+                pre = base["pre"].clone(disable_auto_fork=True)
+                S = dict(base["S"])
+                y = pre["y"]
+                zeros = torch.zeros_like(y.value)
+                pre["y"] = env.WT(zeros, y.weight)
+                S["y_x_model"] = env.WT(zeros.clone(), y.weight)
+                mxm = torch.full_like(zeros, 0.01)
+                ft = (hash_small(case["data_seed"]) % zeros.shape[-1]) if not noise_is_scalar(case, pre) else None
+                if ft is None:
+                    mxm[...] = target
+                else:
+                    mxm[..., ft] = target
+                S["model_x_model"] = mxm
+                ds = copy.copy(dataset)
+                ds.values = torch.zeros_like(dataset.values)
+                out.append((_reinvoke(env, model, pre, S, False, f"{base['k']}+threshold:{p}:{name}", synthetic=True), ds))
+    return out
+
+
+def hash_small(x):
+    import zlib
+    return zlib.crc32(repr(x).encode())
+
+
+def check_iterations(env, chk, case, phase_label, rec, iters, final, outcome, nb):
+    """Second observation point: what the state holds when an iteration is over is what the maximisation step computed
+    (nothing re-touches the parameters afterwards), each iteration ran exactly one maximisation, the fit runs with the
+    memory-less length the settings announce, and the fitted model carries the parameters of the last step."""
+    torch = env.torch
+
+    def same(a, b):
+        a, b = a.detach().reshape(-1), b.detach().reshape(-1)
+        return a.shape == b.shape and bool(((a == b) | (torch.isnan(a) & torch.isnan(b))).all())
+    by_k = {r["k"]: r for r in rec}
+    chk.tag("iteration_monitor", "engaged" if iters else ("not-engaged" if rec else "no-step"))
+    for itn in iters:
+        cj = dict(case, step=f"{phase_label}{itn['k']}")
+        if itn["calls"] != 1:
+            chk.impl_failure(cj, f"iteration {itn['k']} ran update_parameters {itn['calls']} times (exactly one maximisation step per iteration)")
+            continue
+        if itn["nb"] != nb:
+            chk.impl_failure(cj, f"the fit runs with a memory-less phase of {itn['nb']} iterations; the settings give {nb}")
+        r = by_k.get(itn["k"])
+        if r is None or r["new"] is None:
+            continue
+        for p, v in r["new"].items():
+            if p in itn["post"] and not same(itn["post"][p], v):
+                chk.impl_failure(cj, f"{p}: after iteration {itn['k']} the state holds {itn['post'][p].reshape(-1)[:4].tolist()}, the "
+                                     f"maximisation step had computed {v.reshape(-1)[:4].tolist()} (the closed form of the statistics in force)")
+    if outcome == "ok" and rec and rec[-1]["new"] is not None:
+        params = final or {}
+        for p, v in rec[-1]["new"].items():
+            if p in params and not same(params[p], v):
+                chk.impl_failure(dict(case, step=f"{phase_label}end"),
+                                 f"{p}: the fitted model carries {params[p].reshape(-1)[:4].tolist()}, the last maximisation step "
+                                 f"had computed {v.reshape(-1)[:4].tolist()}")
+
+
 def run_case(env, chk, case, items):
+    torch = env.torch
+    ambient = case.get("ambient_dtype")
+    old_dtype = torch.get_default_dtype()
+    try:
+        _run_case(env, chk, case, items, ambient)
+    finally:
+        torch.set_default_dtype(old_dtype)
+
+
+def _run_case(env, chk, case, items, ambient=None):
     try:
         with core.quiet():
             df, dataset, model = build(env, case)
+            if ambient == "float64":
+                # earlier code of the same process left another default dtype; model and data exist (and are initialised) already
+                model.initialize(dataset)
+                env.torch.set_default_dtype(env.torch.float64)
     except Exception as e:  # noqa
         chk.tag("build", err_class(e))
         chk.case(("build-failed", repr(sorted(case.items()))), nontrivial=False)
         return
-    outcome, rec = run_fit(env, case, dataset, model)
+    algo_box = {}
+    phases = []
+    outcome, rec, iters, final = run_fit(env, case, dataset, model, df=df, algo_box=algo_box)
+    phases.append(("", case, df, dataset, outcome, rec, iters, final))
+    if case.get("refit") and outcome == "ok":
+        # the SAME model object (and, for entry "run", the same algorithm object) fitted again on another cohort
+        case2 = dict(case, **case["refit"])
+        case2.pop("refit", None)
+        if case.get("entry") == "run":
+            # the very same algorithm object runs again: its settings are those it was built with
+            case2["n_iter"], case2["n_burn"] = case["n_iter"], case["n_burn"]
+        try:
+            with core.quiet():
+                df2 = gen_table(env, case2)
+                dataset2 = env.Dataset(make_data(env, case2, df2))
+            out2, rec2, iters2, final2 = run_fit(env, case2, dataset2, model, df=df2, algo_box=algo_box)
+            phases.append(("refit:", case2, df2, dataset2, out2, rec2, iters2, final2))
+        except Exception as e:  # noqa
+            chk.tag("refit_build", err_class(e))
     if outcome not in ("ok", "err:conv"):
         # initialisation of a degenerate tiny cohort may legitimately refuse; nothing to check then
         chk.tag("fit_outcome", outcome)
         if not rec:
             chk.case(("fit-refused", repr(sorted(case.items()))), nontrivial=False)
             return
-    chk.tag("fit_outcome", outcome)
-    nb = case["n_burn"]
     mixture = case["model"] == "mixture_logistic"
-    extra = perturbed_records(env, case, model, rec)
-    if mixture:
-        extra = mixture_emptied_records(env, case, model, rec) + extra
+    all_recs = []
+    for label, pcase, pdf, pds, pout, prec, piters, pfinal in phases:
+        chk.tag("fit_outcome", pout)
+        if label:
+            chk.tag("refit_outcome", pout)
+        nb = pcase["n_burn"]
+        check_iterations(env, chk, case, label, prec, piters, pfinal, pout, nb)
+        extra = [(r, pds) for r in perturbed_records(env, pcase, model, prec)]
+        if mixture:
+            extra = [(r, pds) for r in mixture_emptied_records(env, pcase, model, prec)] + extra
+        if not label:
+            extra += threshold_records(env, pcase, pds, model, prec, n_targets=(2 if chk.tier == "quick" else 4))
+        for r, ds in [(r, pds) for r in prec] + extra:
+            k = r["k"]
+            fresh = isinstance(k, int) and k <= nb + 1
+            step_label = f"{label}{k}"
+            if isinstance(k, int):
+                r["burn_doc"] = (k <= nb)
+                if r["burn"] != r["burn_doc"]:
+                    chk.impl_failure(dict(case, step=step_label), f"iteration {k}: the maximisation was run with burn_in={r['burn']} although the "
+                                     f"memory-less phase is k <= {nb}")
+            try:
+                mshape = tuple(tens(env, r["pre"]["model"]).shape) if "model" in r["pre"].dag else None
+            except Exception:  # noqa
+                mshape = None
+            if mshape is not None and mshape != tuple(ds.values.shape):
+                chk.impl_failure(dict(case, step=step_label), f"the state of the maximisation step holds model values of shape {mshape}, the "
+                                 f"dataset given to this fit has shape {tuple(ds.values.shape)}: the step does not run on the data of the fit")
+                continue
+            try:
+                exp = check_step(env, chk, case, ds, r, fresh, step_label if label else k)
+            except Exception as e:  # noqa  (never let a comparison problem escape as an infrastructure error: it would hide the step)
+                chk.impl_failure(dict(case, step=step_label), f"the recorded step could not be evaluated against the dataset of the fit: "
+                                 f"{type(e).__name__}: {str(e)[:200]}")
+                continue
+            try:
+                line, order = lean_line(env, case, ds, r)
+                items.append((dict(case, step=step_label if label else k), r, exp, line, order))
+            except (ValueError, OverflowError):
+                # a non-finite statistic (degenerate chain): no exact rational to hand to the model; predicate still evaluated
+                chk.tag("nonfinite_statistics_not_sent_to_model", case["model"])
+            chk.tag("phase", "synthetic-threshold" if r.get("synthetic") else
+                    ("burn-in" if r["burn"] else ("first-with-memory" if fresh else "averaged")))
+            all_recs.append(r)
     missing_inside = bool(((dataset.mask.sum(dim=2) > 0) & (dataset.mask.sum(dim=2) < dataset.mask.shape[2])).any())
-    for r in rec + extra:
-        k = r["k"]
-        fresh = isinstance(k, int) and k <= nb + 1
-        if isinstance(k, int):
-            r["burn_doc"] = (k <= nb)
-            if r["burn"] != r["burn_doc"]:
-                chk.impl_failure(dict(case, step=k), f"iteration {k}: the maximisation was run with burn_in={r['burn']} although the "
-                                 f"memory-less phase is k <= {nb}")
-        exp = check_step(env, chk, case, dataset, r, fresh, k)
-        try:
-            line, order = lean_line(env, case, dataset, r)
-            items.append((dict(case, step=k), r, exp, line, order))
-        except (ValueError, OverflowError):
-            # a non-finite statistic (degenerate chain): no exact rational to hand to the model; predicate still evaluated
-            chk.tag("nonfinite_statistics_not_sent_to_model", case["model"])
-        chk.tag("phase", "burn-in" if r["burn"] else ("first-with-memory" if fresh else "averaged"))
-    n_steps = len(rec) + len(extra)
-    chk.case((case["model"], case["noise"], case["data_seed"], case["seed"], case["n_iter"], nb),
-             nontrivial=(n_steps >= 2 and any(not r["burn"] for r in rec + extra)),
+    n_steps = len(all_recs)
+    chk.case((case["model"], case["noise"], case["data_seed"], case["seed"], case["n_iter"], case["n_burn"],
+              repr(sorted((k, repr(v)) for k, v in case.items() if k not in BASE_KEYS))),
+             nontrivial=(n_steps >= 2 and any(not r["burn"] for r in all_recs)),
              sample=dict(case, table_head=df.head(4).round(4).values.tolist()) if len(chk.samples) < 3 else None,
-             tags={"model": case["model"], "noise": case["noise"], "n_ind": case["n_ind"],
-                   "missing_inside_visit": missing_inside, "padded": bool(len(set(dataset.n_visits_per_individual)) > 1)})
+             tags={"model": case["model"], "noise": case["noise"], "n_ind": case["n_ind"], "n_ft": case["n_ft"], "src": case["src"],
+                   "missing_inside_visit": missing_inside, "padded": bool(len(set(dataset.n_visits_per_individual)) > 1),
+                   "entry": case.get("entry", "kwargs"), "container": case.get("container", "dataset"), "obs": case.get("obs", "str"),
+                   "class": case.get("cls", "historical")})
 
 
+BASE_KEYS = ("model", "noise", "n_ind", "n_ft", "src", "miss", "data_seed", "n_iter", "n_burn", "seed", "n_clusters")
 F3_WITNESS = dict(model="logistic", noise="scalar", n_ind=5, n_ft=2, src=1, miss=0.3, data_seed=4004, n_iter=3, n_burn=1, seed=0)
 
 
@@ -757,7 +1114,124 @@ def gen_cases(chk):
                 case["src"], case["n_clusters"] = rng.choice([(1, 2), (2, 2), (2, 2), (2, 3), (1, 3)])
                 case["n_ind"] = rng.randint(5, 9)
             cases.append(case)
-    return cases
+    return cases + gen_wide_cases(chk)
+
+
+NONMIX = ["logistic", "linear", "shared_speed_logistic", "joint"]
+
+
+def gen_wide_cases(chk):
+    """Configuration classes beyond the historical grid (one generator per class; quick: every class once per run; thorough: four
+    times)."""
+    rng = chk.rng
+
+    def base(model=None, noise=None, **kw):
+        n_iter = rng.randint(3, 6)
+        c = dict(model=model or rng.choice(NONMIX), noise=noise or rng.choice(["scalar", "diagonal"]), n_ind=rng.randint(3, 8),
+                 n_ft=rng.choice([2, 3]), src=1, miss=rng.choice([0.0, 0.15, 0.3, 0.45]), data_seed=rng.randrange(10 ** 6),
+                 n_iter=n_iter, n_burn=rng.randint(0, n_iter), seed=rng.randrange(1000))
+        c.update(kw)
+        if c["model"] == "mixture_logistic":
+            c.setdefault("n_clusters", 2)
+            c["n_ind"] = max(c["n_ind"], 3 * c["n_clusters"] + 2)
+        return c
+
+    def settings(frac=False):
+        st = {}
+        u = rng.random()
+        if u < 0.5 or frac:
+            st["frac"] = "from-n_burn"
+        if rng.random() < 0.4:
+            st["power"] = rng.choice([0.51, 0.65, 1.0])
+        if rng.random() < 0.6:
+            # (annealing.n_iter >= n_plateau - 1 is a documented requirement; longer and shorter than the memory-less phase / the fit)
+            st["annealing"] = dict(do_annealing=True, initial_temperature=rng.choice([2, 10, 50]), n_plateau=rng.choice([2, 3]),
+                                   n_iter=rng.choice([2, 3, 4, 6, 9]))
+        if rng.random() < 0.5:
+            st["sampler_pop"] = rng.choice(["Gibbs", "FastGibbs", "Metropolis-Hastings"])
+        if rng.random() < 0.5:
+            st["sampler_ind_params"] = dict(acceptation_history_length=rng.choice([1, 2, 3]))
+            st["sampler_pop_params"] = dict(acceptation_history_length=rng.choice([1, 2, 3]))
+        if rng.random() < 0.4:
+            st["random_order"] = False
+        return st
+
+    gens = {
+        # dimensions
+        "univariate": lambda: base(n_ft=1, src=0, miss=0.0),
+        "no-source": lambda: base(model=rng.choice(["logistic", "linear", "shared_speed_logistic"]), n_ft=rng.choice([2, 3, 4]), src=0),
+        "square-betas": lambda: base(model=rng.choice(["logistic", "linear", "joint", "shared_speed_logistic"]), n_ft=rng.choice([3, 4]), src=None),
+        "many-features": lambda: base(n_ft=rng.choice([4, 5]), src=rng.choice([1, 2])),
+        # cohort sizes / visits
+        "one-or-two-subjects": lambda: [base(n_ind=1, model=rng.choice(["logistic", "linear", "shared_speed_logistic"])), base(n_ind=2)],
+        "large-cohort": lambda: base(n_ind=rng.randint(25, 45)),
+        "single-visits": lambda: base(nv_min=1, nv_max=rng.choice([2, 3]), n_ind=rng.randint(5, 9)),
+        "many-visits": lambda: base(nv_min=6, nv_max=rng.choice([9, 14]), n_ind=rng.randint(3, 5)),
+        # units
+        "time-unit": lambda: base(time_unit=rng.choice([12.0, 365.25, 52.0])),
+        # (the joint layout refuses event times <= 0: documented)
+        "baseline-relative-time": lambda: base(model=rng.choice(["logistic", "linear", "shared_speed_logistic"]),
+                                               t_shift=rng.choice([60.0, 70.0, 80.0]), time_unit=rng.choice([1.0, 1.0, 12.0])),
+        "feature-unit": lambda: [base(model="linear", y_scale=10 ** rng.uniform(-2.5, -0.8)), base(model="linear", y_scale=10 ** rng.uniform(1.9, 3.5))],
+        # missing-data patterns
+        "unbalanced-features": lambda: base(n_ft=2, miss_ft=rng.choice([[0.0, 0.8], [0.85, 0.0], [0.5, 0.9]])),
+        "feature-missing-for-a-subject": lambda: base(blank=["feature_one", "feature_one"]),
+        "whole-visit-missing": lambda: base(blank=["visit", "visit"], keep_nan=True),
+        "subject-without-observation": lambda: base(blank=["individual"], keep_nan=True, n_ind=rng.randint(5, 8)),
+        # how the noise structure is requested
+        # (every spelling once per run; the mixture model has its own copy of that constructor code)
+        "obs-spelling": lambda: [base(model=rng.choice(["logistic", "linear", "shared_speed_logistic", "joint"] if o != "dict" else
+                                                       ["logistic", "linear", "shared_speed_logistic"]), obs=o, n_iter=rng.randint(2, 4),
+                                      noise=("diagonal" if o != "instance" else rng.choice(["scalar", "diagonal"])))
+                                 for o in ("tuple", "list", "dict", "instance", "features")]
+                                + [base(model="mixture_logistic", n_ft=3, obs=rng.choice(["tuple", "list", "dict", "instance", "features"]),
+                                        n_iter=rng.randint(2, 3), noise="diagonal")],
+        "obs-default": lambda: [base(model=rng.choice(["logistic", "linear", "shared_speed_logistic"]), noise="auto", obs=o)
+                                for o in ("default", "nodim")],
+        # entry points and containers (every entry point once per run)
+        "entry": lambda: [base(entry=e, container=c) for e, c in zip(("settings", "file", "run"),
+                                                                    rng.sample(["dataset", "data", "dataframe"], 3))],
+        # settings each tested alone elsewhere
+        "settings": lambda: base(settings=settings(frac=True), n_burn=rng.randint(0, 2)),
+        "settings-entry": lambda: base(settings=settings(), entry=rng.choice(["settings", "file", "run"])),
+        # one object fitted twice
+        # (same cohort size: a fitted model keeps the individual variables of its training cohort, a cohort of another size is refused
+        # with a size error before any maximisation step)
+        "refit": lambda: base(entry=rng.choice(["kwargs", "run", "run"]),
+                              refit=dict(data_seed=rng.randrange(10 ** 6), n_iter=rng.randint(2, 5), n_burn=0)),
+        "refit-burn": lambda: base(entry=rng.choice(["kwargs", "run"]),
+                                   refit=dict(data_seed=rng.randrange(10 ** 6), n_iter=4, n_burn=rng.randint(1, 3))),
+        # joint: competing risks
+        "competing-risks": lambda: base(model="joint", nb_events=2, n_ft=rng.choice([2, 3]), src=rng.choice([1, 2]), n_ind=rng.randint(6, 9)),
+        # mixture beyond the historical shapes
+        "mixture-scalar": lambda: base(model="mixture_logistic", noise="scalar", n_ft=rng.choice([2, 3, 4]), n_clusters=rng.choice([2, 3])),
+        "mixture-many-clusters": lambda: base(model="mixture_logistic", noise="diagonal", n_ft=3, n_clusters=4, n_ind=rng.randint(14, 18),
+                                              src=rng.choice([1, 2])),
+        "mixture-time-unit": lambda: base(model="mixture_logistic", noise="diagonal", n_ft=3, time_unit=rng.choice([12.0, 365.25])),
+        "mixture-settings": lambda: base(model="mixture_logistic", noise=rng.choice(["scalar", "diagonal"]), n_ft=3, settings=settings(),
+                                         entry=rng.choice(["kwargs", "run"])),
+        # process state
+        "ambient-float64": lambda: base(model=rng.choice(["logistic", "linear"]), ambient_dtype="float64"),
+    }
+    names = list(gens)
+    picked = names if chk.tier == "quick" else names * 4
+    out = []
+    for name in picked:
+        made = gens[name]()
+        for c in (made if isinstance(made, list) else [made]):
+            c["cls"] = name
+            out.append(c)
+    for c in out:
+        if c["src"] is None:                       # square matrix of mixing coefficients: (n_ft - 1) sources
+            c["src"] = c["n_ft"] - 1
+        c["src"] = min(c["src"], max(c["n_ft"] - 1, 0))
+        c["n_burn"] = min(c["n_burn"], c["n_iter"])
+        st = c.get("settings")
+        if st and st.get("frac") == "from-n_burn":
+            # the documented count is int(frac * n_iter): chosen inside [n_burn, n_burn + 1) / n_iter
+            # (close to the next integer: any rounding other than truncation gives another count)
+            st["frac"] = (c["n_burn"] + 0.9) / c["n_iter"] if c["n_burn"] < c["n_iter"] else 1.0
+    return out
 
 
 def f26_probe(env, chk):
@@ -803,7 +1277,20 @@ def run(chk: core.Check):
                 "missing cells; every real maximisation step is recorded (pre-step state, statistics, new parameters) and two more "
                 "are produced by calling the real update_parameters on clones whose prior means were shifted (mixture: two more, in "
                 "both phases, on clones whose last cluster was emptied by shifting its mean reference time by 400 years). A case is non-trivial "
-                "when it has >= 2 steps and at least one step after the memory-less phase; distinct by full configuration.")
+                "when it has >= 2 steps and at least one step after the memory-less phase; distinct by full configuration. "
+                "Widened (every class once per quick run, four times per thorough run): univariate / no source / square mixing matrices / "
+                "4-5 features; 1, 2 and 25-45 subjects; single-visit and 6-14-visit subjects; ages in months / weeks / days / years "
+                "since a baseline; features of a linear model in units from 0.003 to 3000; unbalanced missingness, a feature wholly "
+                "missing for a subject, wholly missing visits, a subject without any observation; the noise structure requested as "
+                "tuple / list / dict / instance / through feature names / left to the default; fits started from an AlgorithmSettings "
+                "object, a settings file, algorithm_factory(...).run, on a Data object or a DataFrame; settings combined (memory-less "
+                "phase as a fraction, step power, annealing longer / shorter than it, sampler kinds and windows of 1-3, fixed order); the "
+                "same model (and algorithm object) fitted twice; competing risks; mixture with a common noise, 4 clusters, ages in months "
+                "/ days; an ambient float64 default dtype. Added observation points: the statistics in force at memory-less steps "
+                "against the state they were collected from; the parameters held by the state at the end of each iteration and by the "
+                "fitted model against the step's result; the memory-less length the algorithm runs with against the settings; the "
+                "refusal rule driven directly with variances at half / 0.1 % / one float32 step either side of 1e-5; random shifts of "
+                "the pre-step means; a random emptied cluster and all clusters out of reach.")
     cases = [c for c in core.load_corpus(PROP) if isinstance(c, dict) and "model" in c] + gen_cases(chk)
     items = []
     for case in cases:
